@@ -33,7 +33,12 @@ pub fn plan(tier: &str, seed: u64) -> Vec<Batch> {
     // a crafted directory (same-named links to a foreign file) or another process's fd directory
     // mounted on the caller thread's own fd directory (/proc/<pid>/task/<tid>/fd), before the reopen
     // and at every window of it (the kernel refuses mounts on the fd/<n> magic-links themselves)
-    for uni in unis.iter() {
+    // ... also on a kernel without openat2, without the new mount API and without statx mount ids
+    // (before 5.6 / 5.2 / 5.8): only the filesystem-type check is left there
+    let mut old_kernel = UniCfg::e();
+    old_kernel.mount_api = MountApi::Enosys;
+    old_kernel.statx_mntid = false;
+    for uni in unis.iter().chain(std::iter::once(&old_kernel)) {
         let n = fd_mount_cases().len() as u64;
         let mut lo = 0;
         while lo < n {
